@@ -8,6 +8,7 @@ def sh(cmd, cwd=None, env=None, timeout=1200):
     return p.returncode, p.stdout
 
 def confirm(d):
+    d = os.path.abspath(d)
     name = os.path.basename(d.rstrip("/"))
     wt = "/tmp/wt/confirm-%s" % name
     sh("git -C /repo worktree remove --force %s" % wt)
